@@ -248,7 +248,7 @@ func run(sc scenario, deadline time.Duration) (o observed, detail string) {
 				}
 			case i := <-srv.ended:
 				if sc.Cancel == cancelBackoff && i == sc.CancelAt {
-					time.Sleep(40 * time.Millisecond) // the first backoff interval is >= 250ms
+					time.Sleep(15 * time.Millisecond) // the first backoff interval is >= 250ms
 					cancel()
 				}
 			}
